@@ -620,6 +620,19 @@ pub fn run_table(seed: u64, thorough: bool, n: usize) {
             table_case("E2E", &req, 4, &pats, true, &h, &[host.clone()]);
         }
     }
+    // the F5 witness (repaired): a pattern without constraints that requests key 0; both
+    // matchers must report one binding {0: v} per offered v
+    {
+        let req = vec![vec![]];
+        let pats = vec![TPattern { cons: vec![], extra: Some(vec![0]), convertible: true }];
+        let host = THost::<HM>::new(
+            true,
+            vec![vec![crate::table::Rule { cond: None, vals: vec![1, 2] }]],
+        );
+        for h in [Heur::Default, Heur::Never] {
+            table_case("E2E", &req, 0, &pats, true, &h, &[host.clone()]);
+        }
+    }
     for _ in 0..n {
         let nkeys = rng.range(2, 5);
         let req = random_dag(&mut rng, nkeys, 2);
